@@ -29,6 +29,12 @@ func (c08) Info(tier string) fw.Info {
 			"(multi-line constructs, multi-byte runes, CRLF, tabs, comments at end of input, empty input), plus ~40 damaged texts with a known error position under 7 layouts; each as entry module and as the text of an imported module " +
 			"(containment by the table of Appendix I, token positions from the independent reference lexer), plus culprit-free token soup, random bytes (incl. invalid UTF-8) and statement soup (random mixes of well-typed and ill-typed statements) for well-formedness and rendering only; " +
 			"(2) analyzer diagnostics of single-fault programs with a known culprit range under layout variants (blank lines, unicode comments, indentation, CRLF, multi-byte runes on the same line, continuation lines), in the entry module and in an imported module; " +
+			"an accepted program is also passed through the optimizer pass (as cmd/main.go does) and its diagnostics are monitored like the analyzer's; besides the error-level templates there are three generated families (families.go): " +
+			"blk = the result of a block is the culprit (loop / while / for bodies, `if` without `else` with a value or with its null in a typed position, if-else / try-catch / match-arm mismatches, function / closure results, block initialisers) x statements in front of the trailing expression (none, call, let + call on two lines, if statement, assignments) x trailing expression (literal, multi-line infix, call, if-else, nested block): " +
+			"the diagnostic must lie within the trailing expression or be a range around it inside the enclosing construct - a range next to the culprit (one of the statements in front of it) marks an innocent construct; " +
+			"unr = unreachable code (optimizer warning + hint): diverging statement (return, multi-line return, throw, loop, if-else / try-catch / match of returns, block, block statement) x following statement (calls, let, assignment, if, for, return) x rest of the block (nothing, statement, statement + trailing expression, statements) x statements in front, in a called function and in main, also with the trailing expression as the unreachable code and with both statements on one line: " +
+			"the warning must lie within the first unreachable statement (or be a range around it inside the unreachable code), the hint within the diverging statement; " +
+			"wrn = analyzer warnings with a known culprit (unused variable / parameter / function / type / import / loop and catch variable: the name, or a range around it inside the declaration; shadowed unused variable: warning at the first, hint at the shadowing declaration); " +
 			"(3) runtime failures of accepted programs at known positions (throw, division by zero, negative shift, index out of bounds, unwrap of none, failing cast, assert, JSON errors, cancellation, limits) in main, in called functions, in multi-line constructs and in imported modules, on both backends, " +
 			"plus runtime type validation of host-provided any values (annotated let and `as`; the type written inline, through a local alias, an alias chain, an alias nested in a list/option/object type, an imported alias or a singleton type; values from parse_json, any_func, any_list, any-object members - sampled from the product), " +
 			"observing the fatal interrupt span and the line/column/filename of the error object a catch block prints; for throws the reported span is also compared with the compiled program's source-map entries of the Throw instruction and of the instruction after it. " +
@@ -39,6 +45,7 @@ func (c08) Info(tier string) fw.Info {
 		Assumptions: []string{
 			"containment is asserted only where the generator knows the culprit (templates) or where the reference lexer fixes the token positions",
 			"where two readings of 'the construct that caused it' are plausible (expression vs. expression statement incl. semicolon, call vs. callee name) the larger range is used",
+			"a diagnostic about the result of a block (or about unreachable code, or an unused declaration) may mark the smallest culprit, a part of it, or any range around it up to the enclosing construct; a range disjoint from the smallest culprit does not point at the culprit even if it lies inside the same enclosing construct",
 			"Go panics of the analysis itself are C05's business and are reported as inconclusive here",
 		},
 		CaseTimeoutS: 30,
@@ -106,7 +113,7 @@ func (c08) Finalize(tier string, results []fw.Result, coverage map[string]any) s
 			tot[k] += v
 		}
 	}
-	for _, k := range []string{"spans", "renders", "syntax_errors", "diagnostics", "known_culprit_checks", "vm_fatal_spans", "tree_fatal_spans", "caught_positions", "sweep_tree_termination_spans", "sweep_vm_termination_spans"} {
+	for _, k := range []string{"spans", "renders", "syntax_errors", "diagnostics", "known_culprit_checks", "optimizer_diagnostics", "vm_fatal_spans", "tree_fatal_spans", "caught_positions", "sweep_tree_termination_spans", "sweep_vm_termination_spans"} {
 		if len(results) > 50 && tot[k] == 0 {
 			return "observation channel " + k + " stayed empty"
 		}
